@@ -432,7 +432,16 @@ func VerifC13ReadBack() {
 	if linkBoth {
 		ok = ok && s.AddAccountNode(wal, client) == nil
 	}
-	_, err := s.UpdateNodePeers(client, []string{string(host)}, 7)
+	// a second tracked peer of another shape: a bare light client (no kind, no URI, no payout, not a host)
+	var other store.NodeID
+	for _, id := range all {
+		if id != host && id != client {
+			other = id
+			break
+		}
+	}
+	ok = ok && s.SetNode(store.Node{ID: other, LastSeen: t0}) == nil
+	_, err := s.UpdateNodePeers(client, []string{string(host), string(other)}, 7)
 	ok = ok && err == nil
 	nonce := verifapi.Int64("nonce")
 	verifapi.Assume(nonce > t0.UnixNano()-int64(store.ExpireNonce) && nonce <= t0.UnixNano())
@@ -445,8 +454,18 @@ func VerifC13ReadBack() {
 	verifapi.Assert(err == nil && got.ID == host && got.IsHost && got.Kind == "geth" && got.URI == hn.URI && got.Payout == wal, "c13.readback.node")
 	gc, err := re.GetNode(client)
 	verifapi.Assert(err == nil && gc.ID == client && !gc.IsHost && gc.Kind == "parity" && gc.BlockNumber == 7, "c13.readback.node")
+	verifapi.MapOrderAll(true)
 	peers, err := re.NodePeers(client)
-	verifapi.Assert(err == nil && len(peers) == 1 && peers[0].ID == host, "c13.readback.peers")
+	verifapi.MapOrderAll(false)
+	verifapi.Assert(err == nil && len(peers) == 2 && (peers[0].ID == host && peers[1].ID == other || peers[0].ID == other && peers[1].ID == host), "c13.readback.peers")
+	// each tracked peer comes back as its own stored record, whatever the other peers look like
+	for _, pn := range peers {
+		if rec, gerr := re.GetNode(pn.ID); gerr == nil {
+			verifapi.Assert(verifapi.Same(verifapi.Snapshot(pn), verifapi.Snapshot(*rec)), "c13.readback.peer-records")
+		} else {
+			verifapi.Unreachable("c13.readback.peer-record-missing")
+		}
+	}
 	verifapi.Assert(re.IsAccountNode(wal, host) == nil, "c13.readback.link")
 	verifapi.Assert((re.IsAccountNode(wal, client) == nil) == linkBoth, "c13.readback.link")
 	nodes, err := re.GetAccountNodes(wal)
